@@ -5,6 +5,8 @@ copy of the current package; every check must exit 0 on it.  Exit 1 = false alar
 import glob, os, shutil, subprocess, sys, tempfile, concurrent.futures as cf
 ROOT = os.path.dirname(os.path.dirname(os.path.abspath(__file__)))
 PROPS = ["C01", "C02", "C03", "C04", "C07", "C08", "C09", "C10", "C11", "C12", "C13", "C14", "C15", "C16", "C17", "C18", "C19"]
+if os.environ.get("PROPS"):
+    PROPS = os.environ["PROPS"].split(",")
 tier = os.environ.get("VERIF_TIER", "quick")
 
 
